@@ -101,6 +101,17 @@ fn nested(src: &str, d: &Value, st: &mut Stats) {
     }
 }
 
+/// top-level builtin call -> permissive R-fn oracle; anything else -> general R-eval oracle
+fn check_call_or_general(src: &str, d: &Value, st: &mut Stats) {
+    match rparse::parse(src) {
+        Ok(p) if matches!(p.tree.k, rparse::K::Function(..)) => check_call_expr_p("C02", src, d, "size-ladder", st),
+        _ => {
+            st.states += 1;
+            nested(src, d, st)
+        }
+    }
+}
+
 thread_local! {
     static LOG: RefCell<Vec<Value>> = RefCell::new(Vec::new());
 }
@@ -386,6 +397,40 @@ pub fn run(tier: Tier) -> i32 {
                 }
             }
         }
+    }
+    // size ladder: long arrays through every array-consuming builtin, with calls before and after
+    {
+        let sizes: Vec<usize> = tier.pick(vec![64, 100, 127, 128, 129, 200, 256, 257, 1000], vec![64, 100, 127, 128, 129, 200, 255, 256, 257, 300, 1000, 1024, 4096, 5000, 65536]);
+        let sz = par_sweep(sizes, |&n, st| {
+            let objs: Vec<Value> = (0..n).map(|i| json!({"k": (i * 7 + 3) % 5, "s": format!("s{}", (i * 11) % 7), "i": i})).collect();
+            let nums: Vec<Value> = (0..n).map(|i| json!(((i * 13 + 5) % 17) as i64 - 8)).collect();
+            let strs: Vec<Value> = (0..n).map(|i| json!(format!("{}", (i * 31) % 23))).collect();
+            let d = json!({"o": objs, "n": nums, "s": strs});
+            for e in [
+                "sort_by(o, &k)[*].i", "sort_by(o, &s)[*].i", "max_by(o, &k).i", "min_by(o, &k).i", "sort_by(o, &k)[*].to_string(k)", "max_by(o, &k) | type(@)",
+                "sort_by(o, &abs(k))[*].i", "sort_by(o, &to_string(k))[0].i", "map(&k, o)", "map(&abs(k), o) | length(@)", "length(sort_by(o, &k))", "sort_by(o, &k)[-1].i",
+                "sort(n)", "max(n)", "min(n)", "sum(n)", "avg(n)", "length(n)", "reverse(n)", "sort(s)", "max(s)", "min(s)", "join(',', s)", "length(join('', s))", "length(o)", "length(n)",
+                "reverse(sort(n)) == sort_by(n, &@) | type(@)", "to_string(n) | length(@)", "keys(o[0])", "n[?@ > `0`] | length(@)", "o[*].k | sum(@)", "contains(n, `8`)", "contains(s, '22')",
+                "sort_by(o, &k)[*].[i, type(k)] | length(@)", "not_null(max_by(o, &k).i, min_by(o, &k).i)",
+            ] {
+                check_call_or_general(e, &d, st);
+            }
+            // distinct numbers one ulp apart (the comparison must stay a total order)
+            let m = n.min(600);
+            let close: Vec<f64> = (0..m).map(|i| 1.0 + (i as f64) * f64::EPSILON).collect();
+            let perms: Vec<Vec<f64>> = vec![
+                close.iter().rev().cloned().collect(),
+                (0..m).map(|i| close[(i * 7) % m]).collect(),
+                (0..m).map(|i| close[if i % 2 == 0 { i / 2 } else { m - 1 - i / 2 }]).collect(),
+            ];
+            for p in perms {
+                let arr = Value::Array(p.iter().map(|x| json!(x)).collect());
+                for e in ["sort(@)", "max(@)", "min(@)", "sort_by(@, &@)", "max_by(@, &@)", "sort(@)[0]", "sort(@)[-1]"] {
+                    check_call_or_general(e, &arr, st);
+                }
+            }
+        });
+        st = st.merge(sz);
     }
     // expref evaluation protocol
     let rt = recording_runtime();
